@@ -39,10 +39,10 @@ def heapseq(tr, elem, capv, ln, ops, tier="quick"):
       dims=dict(cap=capv, len=ln, ops=[[OPN[o], n] for o, n in ops], elem=elem, traits=tr, alloc_stubs=True, shape_symbolic=False, payloads_symbolic=True), role="c18_heapseq")
 
 
-def rawparts(after, twice, tr, elem, capv=2, tier="quick"):
+def rawparts(after, twice, tr, elem, capv=2, tier="quick", also=()):
     name = "c17_rawparts_%s%s__%s_%s__c%d" % (after.lower(), "_twice" if twice else "", tr, elem, capv)
     call = "c10::rawparts_heap::<%s, %s>(%s, c10::RpAfter::%s, %s)" % (TR[tr], elem, P(capv, "s%d" % capv, "s%d" % capv), after, "true" if twice else "false")
-    H(name, call, ["C17"], tier=tier, unwind=unwind_for(elem, capv + 3), stubs=ALLOC_STUBS,
+    H(name, call, ["C17"] + list(also), tier=tier, unwind=unwind_for(elem, capv + 3), stubs=ALLOC_STUBS,
       dims=dict(cap=capv, after=after, twice=twice, elem=elem, traits=tr, alloc_stubs=True, shape_symbolic=True), role="c17_rawparts")
 
 
@@ -78,6 +78,9 @@ def define():
     rawparts("Clear", False, "call", "B3D", capv=1)
     rawparts("Nothing", True, "none", "Z0D")
     rawparts("Push", False, "none", "B3D", capv=0)
+    # nothing allocated and an element alignment above 1: the rebuilt vector's (dangling) storage pointer must stay aligned
+    rawparts("Nothing", False, "none", "H2", capv=0, also=("C12",))
+    rawparts("Nothing", True, "none", "W8", capv=0, also=("C12",), tier="rot2")
     for ln in (2, 0):
         H("c17_rawparts_clone__clone_B3D__l%d" % ln, "c10::rawparts_clone::<dyn Cloneable, B3D>(%s)" % P(2, ln, 0), ["C17"], unwind=unwind_for("B3D", 4), dims=dict(cap=2, len=ln, elem="B3D", traits="clone", shape_symbolic=False, payloads_symbolic=True), role="c17_rawparts_clone")
     for tr, elem in (("none", "W8D"), ("clone", "B3D"), ("call", "Z0D")):
